@@ -66,9 +66,10 @@ class SchedLock:
 
 
 class Worker(threading.Thread):
-    def __init__(self, sch, wid: int, ncalls: int, close_after: bool):
+    def __init__(self, sch, wid: int, ncalls: int, close_after: bool, first_open_missing: bool = False):
         super().__init__(daemon=True, name=f'c20-worker-{wid}')
         self.sch, self.wid, self.ncalls, self.close_after = sch, wid, ncalls, close_after
+        self.first_open_missing = first_open_missing
         self.arrived, self.go = threading.Event(), threading.Event()
         self.pending = None
         self.finished = False
@@ -121,8 +122,17 @@ class Worker(threading.Thread):
         self.my_ident = threading.get_ident()
         sys.settrace(self.global_trace)
         try:
-            for _ in range(self.ncalls):
+            for call in range(self.ncalls):
                 try:
+                    if call == 0 and self.first_open_missing:
+                        # another entry point, and a constructor that fails AFTER the guard (the file does not
+                        # exist): whether the guard lets the thread through must not depend on either
+                        try:
+                            self.sch.store_cls.open(base_file='/nonexistent/c20_missing.nc')
+                            self.results.append('error:open of a missing file succeeded')
+                        except ValueError as e:
+                            self.results.append('ok' if 'does not exist' in str(e) else f'error:ValueError:{e}')
+                        continue
                     ts = self.sch.store_cls.create()
                     self.results.append('ok')
                     if self.close_after:
@@ -184,14 +194,14 @@ class Scheduler:
             raise SchedulerStuck(f'worker {w.wid} did not come back from step {label}')
         return 'Blocked' if w.blocked else label
 
-    def run_interleaved(self, calls, close, sched):
+    def run_interleaved(self, calls, close, sched, open_missing=None):
         """calls[i] constructor calls in worker i (all workers alive for the whole run), scheduled by `sched`
         (list of worker indices), then drained round robin.  Returns dict(labels, results, owner, owners_seen)."""
         saved = {k: getattr(self.store_cls, k) for k in self.lock_names}
         self.store_cls.active_in_thread = None
         for k in self.lock_names:
             setattr(self.store_cls, k, SchedLock())
-        workers = [Worker(self, i, n, close[i]) for i, n in enumerate(calls)]
+        workers = [Worker(self, i, n, close[i], bool(open_missing and open_missing[i])) for i, n in enumerate(calls)]
         labels, owners = [], []
         try:
             for w in workers:
@@ -402,7 +412,8 @@ def gen_cases(chk: Check, guard):
         calls = rng.choice([[2, 1], [1, 2], [2, 2], [3, 1]])
         L = rng.randint(0, (per_call + 1) * sum(calls))
         cases.append({'kind': 'interleave', 'calls': calls, 'close': [rng.random() < 0.5 for _ in calls],
-                      'sched': [rng.randrange(2) for _ in range(L)]})
+                      'sched': [rng.randrange(2) for _ in range(L)],
+                      'open_missing': [rng.random() < 0.3 for _ in calls]})
     # E3: three threads
     for _ in range(chk.n(120, 1500)):
         calls = rng.choice([[1, 1, 1], [1, 1, 1], [2, 1, 1], [1, 0, 2]])
@@ -441,7 +452,7 @@ def check_cases(chk: Check, cases, guard):
     for c in cases:
         try:
             if c['kind'] == 'interleave':
-                outs.append(sch.run_interleaved(c['calls'], c['close'], c['sched']))
+                outs.append(sch.run_interleaved(c['calls'], c['close'], c['sched'], c.get('open_missing')))
             elif c['kind'] == 'main_first':
                 outs.append(sch.run_main_first(c['calls'], c['close']))
             else:
@@ -456,7 +467,7 @@ def check_cases(chk: Check, cases, guard):
         if out is None:
             continue
         distinct_threads_step = len({t for t in c['sched'][:4]}) > 1
-        chk.case({k: c[k] for k in ('kind', 'calls', 'close', 'sched')},
+        chk.case({k: c.get(k) for k in ('kind', 'calls', 'close', 'sched', 'open_missing')},
                  nontrivial=(c['kind'] == 'interleave' and distinct_threads_step) or c['kind'] != 'interleave')
         chk.count('kind:' + c['kind'] + (':exhaustive' if c.get('exhaustive') else ''))
         chk.count(f'threads:{len(c["calls"])}')
